@@ -234,7 +234,6 @@ Proof.
 Qed.
 
 Lemma exit_one_on_failure_lemma c stdin t check :
-  unwinds c t = false ->
   c_version_ok c = false \/
   (c_disable_all c = false /\
    (c_ignore_ok c = false \/ (not_looked_at c t = false /\ root_bad c stdin t))) ->
@@ -242,7 +241,7 @@ Lemma exit_one_on_failure_lemma c stdin t check :
   (f_operational f = true \/ f_parsing f = true) /\ exit_file f check = 1 /\ exit_stdin f = 1 /\
   existsb is_failure (fst (run_root c stdin t)) = true.
 Proof.
-  intros _ H.
+  intros H.
   assert (G : (f_operational (snd (run_root c stdin t)) = true \/ f_parsing (snd (run_root c stdin t)) = true) /\
               existsb is_failure (fst (run_root c stdin t)) = true).
   { unfold run_root, format_input_inner. cbn [fst snd].
@@ -313,7 +312,7 @@ Proof.
   split; [|split].
   - unfold run_root, format_input_inner, format_project. rewrite Hv, Hd, Hi, Hs, Ho. cbn [negb andb snd fst].
     rewrite (visit_kids_none (t_kids t)); [reflexivity|]. exists k. split; [exact Hin|]. apply reach_bad_none. exact Hrb.
-  - apply exit_one_on_failure_lemma; [unfold unwinds; rewrite Ho, !andb_false_r; reflexivity|]. right. split; [exact Hd|]. right. split; [exact Hn|exact Hbad].
+  - apply exit_one_on_failure_lemma. right. split; [exact Hd|]. right. split; [exact Hn|exact Hbad].
   - apply no_emit_on_early_failure_lemma. right; right. exact Hbad.
 Qed.
 
@@ -329,108 +328,70 @@ Lemma run_one_eq scfg r :
        end.
 Proof.
   unfold run_one. cbn [run_roots]. destruct (negb (r_exists r) || r_is_dir r); [reflexivity|].
-  destruct (r_load r) as [|c|]; [destruct (unwinds scfg (r_tree r))|destruct (unwinds c (r_tree r))|]; reflexivity.
+  destruct (r_load r); reflexivity.
 Qed.
 
-(* the status with which the process ends when this root stops the loop *)
-Definition abort_code (scfg : cfg) (r : root) : option N :=
-  if negb (r_exists r) || r_is_dir r then None
-  else match r_load r with
-       | LocalErr => Some 1
-       | UseSession => if unwinds scfg (r_tree r) then Some 101 else None
-       | LocalOk c => if unwinds c (r_tree r) then Some 101 else None
-       end.
-Definition aborts (scfg : cfg) (r : root) : bool := match abort_code scfg r with Some _ => true | None => false end.
+Definition aborts (r : root) : bool :=
+  negb (negb (r_exists r) || r_is_dir r) && match r_load r with LocalErr => true | _ => false end.
 
-(* the roots processed: up to and including the first that stops the loop *)
-Fixpoint processed (scfg : cfg) (rs : list root) : list root :=
+(* the roots processed: up to and including the first whose local configuration fails to load *)
+Fixpoint processed (rs : list root) : list root :=
   match rs with
   | [] => []
-  | r :: rs' => if aborts scfg r then [r] else r :: processed scfg rs'
-  end.
-
-Fixpoint first_abort (scfg : cfg) (rs : list root) : option N :=
-  match rs with
-  | [] => None
-  | r :: rs' => match abort_code scfg r with Some c => Some c | None => first_abort scfg rs' end
+  | r :: rs' => if aborts r then [r] else r :: processed rs'
   end.
 
 Lemma run_roots_spec scfg rs :
-  fst (run_roots scfg rs) = map (run_one scfg) (processed scfg rs) /\
-  snd (run_roots scfg rs) = first_abort scfg rs.
+  fst (run_roots scfg rs) = map (run_one scfg) (processed rs) /\
+  snd (run_roots scfg rs) = existsb aborts rs.
 Proof.
   induction rs as [|r rs [IH1 IH2]]; [split; reflexivity|].
-  pose proof (run_one_eq scfg r) as Hr. cbn [run_roots processed first_abort]. unfold aborts, abort_code.
-  destruct (negb (r_exists r) || r_is_dir r).
+  pose proof (run_one_eq scfg r) as Hr. cbn [run_roots processed existsb]. unfold aborts at 1 2.
+  destruct (negb (r_exists r) || r_is_dir r); cbn [negb andb orb].
   - cbn [map fst snd]. rewrite Hr, IH1, IH2. split; reflexivity.
-  - destruct (r_load r) as [|c|].
-    + destruct (unwinds scfg (r_tree r)); cbn [map fst snd]; rewrite Hr, ?IH1, ?IH2; split; reflexivity.
-    + destruct (unwinds c (r_tree r)); cbn [map fst snd]; rewrite Hr, ?IH1, ?IH2; split; reflexivity.
-    + cbn [map fst snd]. rewrite Hr. split; reflexivity.
+  - destruct (r_load r); cbn [map fst snd orb]; rewrite Hr, ?IH1, ?IH2; split; reflexivity.
 Qed.
 
-Lemma first_abort_none scfg rs : existsb (aborts scfg) rs = false -> first_abort scfg rs = None.
-Proof.
-  induction rs as [|r rs IH]; [reflexivity|]. cbn [existsb first_abort]. intros H.
-  apply orb_false_iff in H. destruct H as [H1 H2]. unfold aborts in H1.
-  destruct (abort_code scfg r); [discriminate|]. apply IH. exact H2.
-Qed.
-
-Lemma first_abort_some scfg rs r : In r rs -> aborts scfg r = true ->
-  first_abort scfg rs = Some 1 \/ first_abort scfg rs = Some 101.
-Proof.
-  induction rs as [|r0 rs IH]; intros Hin Ha; [destruct Hin|]. cbn [first_abort].
-  destruct (abort_code scfg r0) as [c|] eqn:E.
-  - unfold abort_code in E. destruct (negb (r_exists r0) || r_is_dir r0); [discriminate|].
-    destruct (r_load r0) as [|c0|]; [destruct (unwinds scfg (r_tree r0))|destruct (unwinds c0 (r_tree r0))|];
-      inversion E; auto.
-  - destruct Hin as [->|Hin]; [unfold aborts in Ha; rewrite E in Ha; discriminate|]. apply IH; assumption.
-Qed.
-
-Lemma processed_all scfg rs : existsb (aborts scfg) rs = false -> processed scfg rs = rs.
+Lemma processed_all rs : existsb aborts rs = false -> processed rs = rs.
 Proof.
   induction rs as [|r rs IH]; [reflexivity|]. cbn [existsb processed]. intros H.
   apply orb_false_iff in H. destruct H as [H1 H2]. rewrite H1, (IH H2). reflexivity.
 Qed.
 
 Lemma roots_independent_lemma scfg rs :
-  existsb (aborts scfg) rs = false ->
-  fst (run_roots scfg rs) = map (run_one scfg) rs /\ snd (run_roots scfg rs) = None.
+  existsb aborts rs = false ->
+  fst (run_roots scfg rs) = map (run_one scfg) rs /\ snd (run_roots scfg rs) = false.
 Proof.
-  intros H. destruct (run_roots_spec scfg rs) as [H1 H2].
-  rewrite H1, H2, (processed_all scfg rs H), (first_abort_none scfg rs H). auto.
+  intros H. destruct (run_roots_spec scfg rs) as [H1 H2]. rewrite H1, H2, (processed_all rs H). auto.
 Qed.
 
 Lemma roots_prefix_lemma scfg rs :
   exists k, fst (run_roots scfg rs) = map (run_one scfg) (firstn k rs) /\
-            (existsb (aborts scfg) rs = false -> k = length rs).
+            (existsb aborts rs = false -> k = length rs).
 Proof.
   destruct (run_roots_spec scfg rs) as [H1 _]. rewrite H1. clear H1.
   induction rs as [|r rs (k & IH1 & IH2)].
   - exists 0%nat. split; [reflexivity|auto].
-  - cbn [processed existsb]. destruct (aborts scfg r).
+  - cbn [processed existsb]. destruct (aborts r).
     + exists 1%nat. split; [reflexivity|]. cbn. discriminate.
     + exists (S k). cbn [firstn map orb]. rewrite IH1. split; [reflexivity|]. intros H. cbn [length]. rewrite IH2; auto.
 Qed.
 
-(* the exit status of the whole invocation: non-zero as soon as one root fails *)
+(* the exit status of the whole invocation: 1 as soon as one root fails *)
 Lemma run_main_exit_one scfg check rs r :
-  In r rs ->
-  (f_operational (snd (run_one scfg r)) = true \/ f_parsing (snd (run_one scfg r)) = true \/ aborts scfg r = true) ->
-  snd (run_main (Some scfg) check rs) = 1 \/ snd (run_main (Some scfg) check rs) = 101.
+  In r rs -> (f_operational (snd (run_one scfg r)) = true \/ f_parsing (snd (run_one scfg r)) = true \/ aborts r = true) ->
+  snd (run_main (Some scfg) check rs) = 1.
 Proof.
   intros Hin H. unfold run_main. cbn [snd].
   destruct (run_roots_spec scfg rs) as [H1 H2]. rewrite H2.
-  destruct (existsb (aborts scfg) rs) eqn:Ea.
-  - apply existsb_exists in Ea. destruct Ea as (r' & Hin' & Ha').
-    destruct (first_abort_some scfg rs r' Hin' Ha') as [E|E]; rewrite E; auto.
-  - rewrite (first_abort_none scfg rs Ea), H1, (processed_all scfg rs Ea), map_map. left.
-    destruct H as [H|[H|H]].
-    + apply error_exit_one. left. rewrite sum_operational. apply existsb_exists.
-      exists (snd (run_one scfg r)). split; [|exact H]. apply in_map_iff. exists r. auto.
-    + apply error_exit_one. right. rewrite sum_parsing. apply existsb_exists.
-      exists (snd (run_one scfg r)). split; [|exact H]. apply in_map_iff. exists r. auto.
-    + exfalso. assert (existsb (aborts scfg) rs = true) by (apply existsb_exists; exists r; auto). congruence.
+  destruct (existsb aborts rs) eqn:Ea; [reflexivity|].
+  rewrite H1, (processed_all rs Ea), map_map.
+  destruct H as [H|[H|H]].
+  - apply error_exit_one. left. rewrite sum_operational. apply existsb_exists.
+    exists (snd (run_one scfg r)). split; [|exact H]. apply in_map_iff. exists r. auto.
+  - apply error_exit_one. right. rewrite sum_parsing. apply existsb_exists.
+    exists (snd (run_one scfg r)). split; [|exact H]. apply in_map_iff. exists r. auto.
+  - exfalso. assert (existsb aborts rs = true) by (apply existsb_exists; exists r; auto). congruence.
 Qed.
 
 (* a malformed local configuration stops the loop: later roots are not formatted *)
@@ -448,23 +409,41 @@ Proof.
   split; [vm_compute; auto 10|]. split; vm_compute; reflexivity.
 Qed.
 
-(* a fatal lexer error in a ROOT file ends the process with status 101; the roots after it are not processed;
-   the same error in a child module is an ordinary module resolution error *)
+(* BEFORE THE REPAIR a fatal lexer error in a ROOT file ended the process with status 101 and the roots after it
+   were not processed (run_main_pre); the repaired code (run_main) treats it as a parse error; in a child module
+   it always was an ordinary module resolution error *)
 Definition lex_info (p : path) : ninfo := MkInfo p PLexFatal false false false (MkFres flags_zero false false).
 
 Lemma root_lex_fatal_refuted_lemma :
   exists (scfg : cfg) (r1 r2 : root),
     n_outcome (t_info (r_tree r1)) = PLexFatal /\
     In (Emitted 7) (fst (run_one scfg r2)) /\
-    run_main (Some scfg) false [r1; r2] = ([[ParseRootErr]], 101) /\
-    run_main (Some scfg) false [r2; r1] = ([[Parsed 7; Formatted 7; Emitted 7]; [ParseRootErr]], 101) /\
-    run_stdin scfg (r_tree r1) = ([ParseRootErr], 101) /\
-    run_main (Some scfg) false [MkRoot true false UseSession (Node (clean_info 5) [Node (lex_info 3) []]); r2] =
-      ([[Parsed 5; ResolveErr]; [Parsed 7; Formatted 7; Emitted 7]], 1).
+    run_main_pre (Some scfg) false [r1; r2] = ([[ParseRootErr]], 101) /\
+    run_main_pre (Some scfg) false [r2; r1] = ([[Parsed 7; Formatted 7; Emitted 7]; [ParseRootErr]], 101) /\
+    run_stdin_pre scfg (r_tree r1) = ([ParseRootErr], 101).
 Proof.
   exists cfg_ok, (MkRoot true false UseSession (Node (lex_info 3) [])),
          (MkRoot true false (LocalOk cfg_ok) (Node (clean_info 7) [])).
   split; [reflexivity|]. split; [vm_compute; auto 10|]. repeat split; vm_compute; reflexivity.
+Qed.
+
+(* the repaired code on the same inputs, and on every root with a fatal lexer error *)
+Lemma root_lex_fatal_repaired_lemma :
+  (forall c stdin t, c_version_ok c = true -> c_disable_all c = false -> c_ignore_ok c = true ->
+     (c_skip_children c && n_ignored (t_info t)) = false -> n_outcome (t_info t) = PLexFatal ->
+     run_root c stdin t = ([ParseRootErr], parsing_flag) /\ snd (run_stdin c t) = 1) /\
+  run_main (Some cfg_ok) false [MkRoot true false UseSession (Node (lex_info 3) []);
+                                MkRoot true false (LocalOk cfg_ok) (Node (clean_info 7) [])] =
+    ([[ParseRootErr]; [Parsed 7; Formatted 7; Emitted 7]], 1) /\
+  run_main (Some cfg_ok) false [MkRoot true false UseSession (Node (clean_info 5) [Node (lex_info 3) []]);
+                                MkRoot true false (LocalOk cfg_ok) (Node (clean_info 7) [])] =
+    ([[Parsed 5; ResolveErr]; [Parsed 7; Formatted 7; Emitted 7]], 1).
+Proof.
+  split; [|split; vm_compute; reflexivity].
+  intros c stdin t Hv Hd Hi Hs Ho.
+  assert (H : forall b, run_root c b t = ([ParseRootErr], parsing_flag)).
+  { intros b. unfold run_root, format_input_inner, format_project. rewrite Hv, Hd, Hi, Hs, Ho. reflexivity. }
+  split; [apply H|]. unfold run_stdin. rewrite H. reflexivity.
 Qed.
 
 (* ------------------------------------------------------------------ *)
